@@ -45,3 +45,7 @@ Definition is_simple (dt : dtype) : bool :=
   | DDouble | DInt | DUInt | DU32 | DI64 | DU64 | DVec3 | DParticle | DParticle4 => true
   | _ => false
   end.
+
+(* value the reader's final fix-up loops assign to an address-valued member of a record: NULL or the address of the
+   simulation being read into *)
+Inductive relink_value := RNull | RSelf.
